@@ -63,7 +63,7 @@ PLAN = {
             ('order<=2', 'states', ORDER, dict(sb='SB_Diamond', rb='RB_One',
                                                absent=True, noise=True)),
             ('order-sim', 'sim', dict(ORDER, MaxLive=5),
-             dict(sb='SB_Diamond', rb='RB_One', num=50, depth=15)),
+             dict(sb='SB_Diamond', rb='RB_One', num=200, depth=15)),
         ],
         'thorough': [
             ('order<=3', 'states', dict(ORDER, MaxLive=3),
@@ -76,7 +76,7 @@ PLAN = {
             ('subs<=2', 'states', dict(SUBS, MaxLive=2),
              dict(sb='SB_Diamond', rb='RB_Two')),
             ('subs-sim', 'sim', dict(SUBS, MaxLive=5),
-             dict(sb='SB_Diamond', rb='RB_Two', num=50, depth=15)),
+             dict(sb='SB_Diamond', rb='RB_Two', num=200, depth=15)),
         ],
         'thorough': [
             ('subs<=3', 'states', dict(SUBS, MaxLive=3),
@@ -103,12 +103,16 @@ PLAN = {
         ]},
     'C05': {
         'quick': [
-            ('cache d5 push', 'edges', CACHE, dict(sb='SB_Chain2',
-                                                   rb='RB_Two')),
-            ('cache d5 verify', 'edges', dict(CACHE, Flavour='"verify"'),
+            ('cache d4 push', 'edges', dict(CACHE, MaxDepth=4),
+             dict(sb='SB_Chain2', rb='RB_Two')),
+            ('cache d4 verify', 'edges', dict(CACHE, MaxDepth=4,
+                                              Flavour='"verify"'),
              dict(sb='SB_Chain2', rb='RB_Two')),
             ('cache-sim', 'sim', dict(CACHE, MaxLive=4, MaxDepth=100),
-             dict(sb='SB_Chain2', rb='RB_Two', num=50, depth=30)),
+             dict(sb='SB_Chain2', rb='RB_Two', num=150, depth=30)),
+            ('cache-sim verify', 'sim', dict(CACHE, MaxLive=4, MaxDepth=100,
+                                             Flavour='"verify"'),
+             dict(sb='SB_Chain2', rb='RB_Two', num=150, depth=30)),
         ],
         'thorough': [
             ('cache d7 push', 'edges', dict(CACHE, MaxDepth=7),
